@@ -133,7 +133,7 @@ mod imp {
             0 => (evicted_base_program(&mut rng), "evicted_base"),
             1 => (chain_program(&mut rng), "chain"),
             _ => {
-                let cfg = GenConfig { max_dim: 32, max_frames: 5, min_frames: 2, max_pixels: 32 * 32, ..GenConfig::small() }.swarm(&mut rng);
+                let cfg = GenConfig { max_dim: 32, max_frames: 5, min_frames: 2, max_pixels: 32 * 32, vardct: rng.chance(1, 4), ..GenConfig::small() }.swarm(&mut rng);
                 (random_program(&mut rng, &cfg), "swarm")
             }
         };
@@ -178,6 +178,7 @@ mod imp {
             brob_after_codestream: false,
             shape: format!("{family}-{}", program_shape(&prog)),
             source: "jxlgen".into(),
+            has_vardct: prog.frames.iter().any(|f| f.vardct.is_some()),
             program: serde_json::to_value(&prog).ok(),
             bytes,
         };
@@ -185,6 +186,7 @@ mod imp {
     }
 
     fn viol(seed: u64, sc: &Scenario, class: String, detail: String) -> Violation {
+    let class = if sc.case.has_vardct && !class.starts_with("panic:") { format!("{class}+vardct") } else { class };
         Violation { property: "C20".into(), check: "c20".into(), class, detail, seed, scenario: serde_json::to_value(sc).unwrap() }
     }
 
